@@ -20,6 +20,8 @@ def instances():
         for pat in ((), (None,), (None, None), (3, None), (2, 3, 2)):
             for acc in ('def', 'st', 'px'): out.append(('ulog', None, t, pat, acc))
             for acc in ('def', 'sh'): out.append(('urev', None, t, pat, acc))
+    for t, pats in (('u8', ((None, None), (None, None, None), (16, None))), ('i32', ((None, None), (None, None, None))), ('u16', ((None, None),))):
+        for pat in pats: out.append(('ubc', None, t, pat, 'def'))
     return out
 def key(i):
     kind, sp, t, pat, acc = i
@@ -36,7 +38,7 @@ def sources(ntu=32, insts=None):
     for n, i in enumerate(insts if insts is not None else instances()):
         kind, sp, t, pat, acc = i
         E = cxx_extents(t, pat); spv = 'md::dynamic_extent' if sp in (None, 'D') else str(sp)
-        lay = {'left': 'md::layout_left', 'right': 'md::layout_right', 'stride': 'md::layout_stride', 'lpad': 'mdx::layout_left_padded<%s>' % spv, 'rpad': 'mdx::layout_right_padded<%s>' % spv, 'ulog': 'LogLayout', 'urev': 'RevLayout'}[kind]
+        lay = {'left': 'md::layout_left', 'right': 'md::layout_right', 'stride': 'md::layout_stride', 'lpad': 'mdx::layout_left_padded<%s>' % spv, 'rpad': 'mdx::layout_right_padded<%s>' % spv, 'ulog': 'LogLayout', 'urev': 'RevLayout', 'ubc': 'BcLayout'}[kind]
         A = {'def': 'md::default_accessor<int>', 'st': 'StAcc<int>', 'px': 'PxAcc<int>', 'eh': 'EhAcc<int>', 'sh': 'ShiftAcc<int>'}[acc]
         A2 = {'def': 'md::default_accessor<const int>', 'st': 'StAcc<const int>', 'px': 'PxAcc<const int>', 'eh': 'EhAcc<const int>', 'sh': 'ShiftAcc<const int>'}[acc]
         E2 = cxx_extents(t2(t), [None] * len(pat))
